@@ -261,6 +261,27 @@ theorem readGuarded_ok (E : Ext) (f : Fits) (t : Table) (h : readFixed E f = .ok
     simp only
     rw [s3 t h, hnd]
 
+/-- the reader always fills in extents and periods (`extents` from the `EXTENTS` image or made up, `periods` 0 when
+    a key is missing) -/
+theorem readFixed_some_arrays (E : Ext) (f : Fits) (t : Table) (h : readFixed E f = .ok t) :
+    ∃ e p, t.extents = some e ∧ t.periods = some p := by
+  cases f with
+  | nil => simp [readFixed] at h
+  | cons h0 rest =>
+    rw [readFixed_cons] at h
+    split at h
+    · cases h
+    · split at h
+      · cases h
+      · split at h
+        · cases h
+        · split at h
+          · cases h
+          · split at h
+            · cases h
+            · have := Except.ok.inj h; subst this
+              exact ⟨_, _, rfl, rfl⟩
+
 /-! ## reuse -/
 
 theorem readFits_empty_error (E : Ext) (f : Fits) (e : RErr) (h : readFixed E f = .error e) :
